@@ -369,22 +369,37 @@ def stereo_mol_graph_to_rdmol(
                 Chem.HybridizationType.SP2
             )
 
-            if b_stereo.parity is None:
+            # a substituent position may hold the placeholder of a lone pair
+            # (None): use the real atom on each side. Positions 0 / 4 and
+            # 1 / 5 are cis to each other, 0 / 5 and 1 / 4 are trans.
+            pos1 = 0 if b_stereo.atoms[0] is not None else 1
+            pos2 = 4 if b_stereo.atoms[4] is not None else 5
+            rd_ez = (
+                Chem.rdchem.BondStereo.STEREOZ
+                if (pos1, pos2) in ((0, 4), (1, 5))
+                else Chem.rdchem.BondStereo.STEREOE
+            )
+
+            if (
+                b_stereo.parity is None
+                or b_stereo.atoms[pos1] is None
+                or b_stereo.atoms[pos2] is None
+            ):
                 rd_bond.SetStereo(Chem.rdchem.BondStereo.STEREONONE)
 
             elif (a1, a2) == (new_a1, new_a2):
                 rd_bond.SetStereoAtoms(
-                    map_num_idx_dict[b_stereo.atoms[0]],
-                    map_num_idx_dict[b_stereo.atoms[4]],
+                    map_num_idx_dict[b_stereo.atoms[pos1]],
+                    map_num_idx_dict[b_stereo.atoms[pos2]],
                 )
-                rd_bond.SetStereo(Chem.rdchem.BondStereo.STEREOZ)
+                rd_bond.SetStereo(rd_ez)
 
             elif (a1, a2) == (new_a2, new_a1):
                 rd_bond.SetStereoAtoms(
-                    map_num_idx_dict[b_stereo.atoms[4]],
-                    map_num_idx_dict[b_stereo.atoms[0]],
+                    map_num_idx_dict[b_stereo.atoms[pos2]],
+                    map_num_idx_dict[b_stereo.atoms[pos1]],
                 )
-                rd_bond.SetStereo(Chem.rdchem.BondStereo.STEREOZ)
+                rd_bond.SetStereo(rd_ez)
             else:
                 raise Exception(f"something wrong with {b_stereo}")
 
